@@ -1,6 +1,7 @@
 (** C29 — networks deliver every message exactly once with metadata intact.
     Property theorems only. *)
-From Akita Require Import Lib.Base C31.Model C29.Model C29.ProofsAcc.
+From Coq Require Import Permutation.
+From Akita Require Import Lib.Base C30.Model C30.ProofsMesh C31.Model C29.Model C29.ProofsAcc C29.ProofsNet C29.ProofsMeshRank.
 
 (** Soundness of the acceptor that every real run is checked against: a trace of
     device-port events that it accepts satisfies, at every position, the
@@ -53,6 +54,79 @@ Proof.
   destruct (accepts_sound tr H i _ Hq) as [Hq' _]. rewrite <- Hq'. exact Hq.
 Qed.
 Print Assumptions c29_all_delivered_at_end.
+
+(** * The abstract network (bounded FIFO channels, arbitrary arbitration)
+
+    [next] is the routing (which channel the head packet of a channel moves to,
+    [None] = handed to the device, which always accepts), [cap] the capacities.
+    Hypothesis [next_ok]: along every route the remaining-hops potential [pot]
+    strictly decreases (loop-free routes: C30) and the channel [rank] strictly
+    increases (a channel ordering; shown below for dimension-order mesh
+    routing). *)
+Section Abstract.
+  Variables (next : nat -> nat -> option nat) (cap : nat -> nat) (nchan : nat).
+  Variables (valid : nat -> nat -> Prop) (pot : nat -> nat -> nat) (rank : nat -> nat).
+  Hypothesis cap_pos : forall c, 1 <= cap c.
+  Hypothesis next_ok : forall c d c', valid c d -> next c d = Some c' ->
+    valid c' d /\ c' < nchan /\ pot c' d < pot c d /\ rank c < rank c'.
+
+  (** Conservation: whatever the arbitration does, nothing is lost and nothing is
+      duplicated — the packets in the channels plus the packets handed to devices
+      are always a permutation of the original ones. *)
+  Theorem c29_conservation : forall cs st st', run next cap st cs = Some st' ->
+    Permutation (all_pkts st) (all_pkts st').
+  Proof. intros cs st st'. apply run_conserves. Qed.
+
+  (** Progress: while anything is in flight some move is enabled (no deadlock),
+      every move brings a packet strictly closer, so every execution has at most
+      [measure st] moves, and an execution that cannot be extended has handed
+      every packet to its device exactly once. *)
+  Theorem c29_delivery_progress : forall st, wf nchan valid st ->
+    (in_flight st <> [] -> exists c st', move next cap st c = Some st') /\
+    (forall cs st', run next cap st cs = Some st' ->
+       length cs + measure pot st' <= measure pot st /\
+       ((forall c, move next cap st' c = None) ->
+        in_flight st' = [] /\ Permutation (n_done st') (all_pkts st))) /\
+    (exists cs st', run next cap st cs = Some st' /\ length cs <= measure pot st /\
+                    in_flight st' = [] /\ Permutation (n_done st') (all_pkts st)).
+  Proof.
+    intros st Hw. split; [|split].
+    - intro Hne. eapply no_deadlock; eauto.
+    - intros cs st' Hr. split.
+      + eapply run_bounded; eauto.
+      + intro Hs. eapply maximal_run_delivers; eauto.
+    - eapply delivering_run_exists; eauto.
+  Qed.
+End Abstract.
+Print Assumptions c29_conservation.
+Print Assumptions c29_delivery_progress.
+
+(** The ranking hypothesis holds for the mesh: under dimension-order routing the
+    output ports a packet uses have strictly increasing rank, the packet stays in
+    the grid and gets strictly closer (so bounded buffers cannot deadlock). *)
+Theorem c29_mesh_channel_ranking : forall size c dst c',
+  mesh_valid size c dst -> mesh_next c dst = Some c' ->
+  mesh_valid size c' dst /\
+  (manhattan (fst c') dst < manhattan (fst c) dst)%Z /\
+  (0 <= mesh_rank size c < mesh_rank size c')%Z.
+Proof. exact mesh_channel_ranking. Qed.
+Print Assumptions c29_mesh_channel_ranking.
+
+(** Non-vacuity of the abstract theorems: a 3-channel line 0 -> 1 -> 2 -> device
+    with capacity 1 each and two packets; the greedy schedule delivers both. *)
+Example c29_abstract_nonvacuous :
+  let next := fun c (_ : nat) => if c <? 2 then Some (S c) else None in
+  let cap := fun _ : nat => 1 in
+  let st := mk_net [[(7%N, 0)]; [(8%N, 0)]; []] [] in
+  wf 3 (fun _ _ => True) st /\
+  (forall c d c', True -> next c d = Some c' -> True /\ c' < 3 /\ 3 - c' < 3 - c /\ c < c') /\
+  move next cap st 0 = None /\
+  exists st', run next cap st [1; 2; 0; 1; 2] = Some st' /\ n_done st' = [(8%N, 0); (7%N, 0)] /\ in_flight st' = [].
+Proof.
+  cbv zeta. split; [split; [reflexivity|intros; exact I]|]. split.
+  - intros c d c' _ H. destruct (c <? 2) eqn:E; [|discriminate]. inversion H; subst. apply Nat.ltb_lt in E. lia.
+  - split; [vm_compute; reflexivity|]. eexists. split; [vm_compute; reflexivity|]. split; reflexivity.
+Qed.
 
 (** Non-vacuity: a trace with interleaved sends/receives of three messages is
     accepted; dropping RspTo, delivering to another port, delivering twice or
